@@ -1,6 +1,7 @@
 package main
 
 import (
+	"go/token"
 	"golang.org/x/tools/go/ssa"
 )
 
@@ -260,4 +261,147 @@ func Exits(fn *ssa.Function) []ssa.Instruction {
 		}
 	})
 	return out
+}
+
+// Reach decides whether target is reachable from just after `from` (or from
+// the function entry when from is nil) without taking a cut edge and without
+// executing an instruction in avoid.
+func Reach(fn *ssa.Function, from ssa.Instruction, target ssa.Instruction, cut EdgeSet, avoid map[ssa.Instruction]bool) bool {
+	seen := map[*ssa.BasicBlock]bool{}
+	var stack []*ssa.BasicBlock
+	push := func(b *ssa.BasicBlock) {
+		if !seen[b] {
+			seen[b] = true
+			stack = append(stack, b)
+		}
+	}
+	if from == nil {
+		if len(fn.Blocks) == 0 {
+			return false
+		}
+		push(fn.Blocks[0])
+	} else {
+		fb := from.Block()
+		blocked := false
+		for _, in := range fb.Instrs[instrIndex(from)+1:] {
+			if in == target {
+				return true
+			}
+			if avoid[in] {
+				blocked = true
+				break
+			}
+		}
+		if !blocked {
+			for i, s := range fb.Succs {
+				if !cut[Edge{fb, i}] {
+					push(s)
+				}
+			}
+		}
+	}
+	for len(stack) > 0 {
+		b := stack[len(stack)-1]
+		stack = stack[:len(stack)-1]
+		blocked := false
+		for _, in := range b.Instrs {
+			if in == target {
+				return true
+			}
+			if avoid[in] {
+				blocked = true
+				break
+			}
+		}
+		if blocked {
+			continue
+		}
+		for i, s := range b.Succs {
+			if !cut[Edge{b, i}] {
+				push(s)
+			}
+		}
+	}
+	return false
+}
+
+// GuardOrPass: every path from `from`/entry to target takes an edge
+// establishing one of alts, or executes one of the `through` instructions.
+func GuardOrPass(fn *ssa.Function, from ssa.Instruction, target ssa.Instruction, through []ssa.Instruction, alts ...CP) bool {
+	cut := EdgeSet{}
+	for _, a := range alts {
+		es, _ := IfEdges(fn, a.Match)
+		cut.Add(es)
+	}
+	avoid := map[ssa.Instruction]bool{}
+	for _, t := range through {
+		avoid[t] = true
+	}
+	return !Reach(fn, from, target, cut, avoid)
+}
+
+// immutableCanon: canonical form mentions only parameters / never-written free variables / constants.
+func immutableCond(c ssa.Value) bool {
+	ok := true
+	var rec func(v ssa.Value)
+	rec = func(v ssa.Value) {
+		v = Strip(v)
+		switch x := v.(type) {
+		case *ssa.Const, *ssa.Parameter:
+		case *ssa.UnOp:
+			if fv, isFV := x.X.(*ssa.FreeVar); isFV && x.Op == token.MUL {
+				if freeVarWritten(fv.Parent(), fv) {
+					ok = false
+				}
+				return
+			}
+			if x.Op == token.NOT {
+				rec(x.X)
+				return
+			}
+			ok = false
+		case *ssa.BinOp:
+			rec(x.X)
+			rec(x.Y)
+		default:
+			ok = false
+		}
+	}
+	rec(c)
+	return ok
+}
+
+// CorrelatedCut: for an instruction governed (dominated, one side) by branches
+// on immutable conditions, returns the edges that contradict those conditions
+// at every other branch on the same (canonically equal) condition.
+func CorrelatedCut(fn *ssa.Function, at ssa.Instruction) EdgeSet {
+	cut := EdgeSet{}
+	type fact struct {
+		canon string
+		side  int
+	}
+	var facts []fact
+	for _, b := range fn.Blocks {
+		iff, ok := lastInstr(b).(*ssa.If)
+		if !ok || !immutableCond(iff.Cond) {
+			continue
+		}
+		for side := 0; side < 2; side++ {
+			// does edge (b,side) dominate `at`? i.e. at unreachable from entry without it, and reachable with it
+			only := EdgeSet{Edge{b, side}: true}
+			if !ReachFromEntry(fn, at, only) && at.Block() != b {
+				facts = append(facts, fact{Canon(iff.Cond), side})
+			}
+		}
+	}
+	for _, f := range facts {
+		for _, b := range fn.Blocks {
+			iff, ok := lastInstr(b).(*ssa.If)
+			if !ok || Canon(iff.Cond) != f.canon {
+				continue
+			}
+			cut[Edge{b, 1 - f.side}] = true
+		}
+	}
+	return cut
 }
